@@ -185,13 +185,13 @@ func ruleErrID(w *World, r *Report) {
 				continue
 			}
 			if ex, ok := ev.(*ssa.Extract); ok && ex.Index == 1 {
-				if call, ok := ex.Tuple.(*ssa.Call); ok && call.Call.StaticCallee() != nil && call.Call.StaticCallee().Name() == c.inner {
+				if call, ok := ex.Tuple.(*ssa.Call); ok && call.Call.StaticCallee() != nil && nm(call.Call.StaticCallee()) == c.inner {
 					r.OK(rule, pos, c.name, what, "the error of "+c.inner+" passed through unchanged")
 					continue
 				}
 			}
 			if a, ok := isLoad(ev); ok {
-				if g, ok := a.(*ssa.Global); ok && g.Name() == "ErrDNE" && c.inner == "TryEval" {
+				if g, ok := a.(*ssa.Global); ok && nm(g) == "ErrDNE" && c.inner == "TryEval" {
 					r.OK(rule, pos, c.name, what, "ErrDNE (gate checked by C05 R-DNEBOOL)")
 					continue
 				}
@@ -218,7 +218,7 @@ func ruleErrID(w *World, r *Report) {
 			ok := false
 			if ex, isEx := ev.(*ssa.Extract); isEx && ex.Index == 1 {
 				if call, isCall := ex.Tuple.(*ssa.Call); isCall && call.Call.StaticCallee() != nil {
-					n := call.Call.StaticCallee().Name()
+					n := nm(call.Call.StaticCallee())
 					ok = n == "Compile" || n == "Eval"
 				}
 			}
@@ -432,7 +432,7 @@ func ruleLeafOrder(w *World, r *Report) {
 			}
 			f := mc.Fn.(*ssa.Function)
 			if obj := f.Object(); obj != nil {
-				order[obj.Name()] = idx
+				order[nm(obj)] = idx
 			} else {
 				order[strings.TrimSuffix(f.Name(), "$bound")] = idx
 			}
@@ -917,7 +917,7 @@ func isKindExpr(w *World, e ast.Expr, k nodeKinds) bool {
 	switch x := e.(type) {
 	case *ast.CallExpr:
 		if sel, ok := x.Fun.(*ast.SelectorExpr); ok {
-			if f, ok := w.Info.Uses[sel.Sel].(*types.Func); ok && f.Name() == "getNodeType" {
+			if f, ok := w.Info.Uses[sel.Sel].(*types.Func); ok && nm(f) == "getNodeType" {
 				return true
 			}
 		}
